@@ -57,6 +57,10 @@ StrOps == {Str(x, s) : x \in {C(97), N(97), N(65), C(98)}, s \in {<<65, 66>>, <<
              \cup {Str(N(255), <<65, 66>>)}
 CPOps == {CP1(n) : n \in {nAL, nAl, nST, nSt, nZE, nZe}} \cup {CP2(n, q) : n \in {nAL, nZe, nST, nZE}, q \in {nST, nAl, nZE, nSt}}
 OpsQuick == OneOps \cup RangeOps \cup StrOps \cup CPOps \cup {File(1), File(2), Reset, Save, Restore}
+\* pages x SAVE/RESTORE x few edits: the interplay needs three or four statements (edit a page, create another from a
+\* named source, come back) - enumerated exhaustively by CharMap_Gen3p.cfg / CharMap_Gen4p.cfg
+OpsPages == {One(C(97), C(65)), One(N(98), N(1)), Reset, File(1), CP1(nAL), CP1(nST), CP1(nZe), CP2(nZE, nST), CP2(nAL, nZE),
+             CP2(nZE, nAl), Save, Restore}
 CapOps == {Cap(TRUE, 97), Cap(FALSE, 97), Cap(TRUE, 98), Cap(FALSE, 65)}
 OpsGen == OpsQuick \cup CapOps
 
@@ -86,7 +90,7 @@ Next == \E op \in Ops : Step(op)
 \* then a statement of that class, among the statements that are not an error in the present state (erroneous
 \* statements are enumerated exhaustively by CharMap_Gen2.cfg; an assembly with an error writes no code file).
 ClassOf(op) == IF op.k = "cp" THEN (IF op.q = NoName THEN "cp1" ELSE "cp2") ELSE op.k
-GoodOps == {op \in Ops : ~MStep(vm, op, cs).err /\ MClosed(MStep(vm, op, cs).m)}
+GoodOps == {op \in Ops : ~DErr(vd, op, cs)}       \* (a statement that leaves the window ends the trace early)
 NextSim == \E g \in {GoodOps} :                                                          \* bound: evaluated once
              \E cl \in {RandomElement({ClassOf(op) : op \in g})} :
                \E op \in {RandomElement({x \in g : ClassOf(x) = cl})} : Step(op)
@@ -132,8 +136,9 @@ Rot(k) == ProbeStr[(k % Len(ProbeStr)) + 1]
 ProbesAt(p, t) ==
   LET same == {x \in (MCCodes \X MCCodes) : x[1] < x[2] /\ t[x[1]] = t[x[2]]}
       pair == IF same = {} THEN <<Rot(p), Rot(p + 3)>> ELSE CHOOSE x \in same : TRUE
-  IN << Probe("str", ProbeStr), Probe("chr", <<Rot(p)>>), Probe("multi", <<Rot(p + 1), Rot(p + 2)>>),
-        Probe("expr", <<Rot(p + 2)>>), Probe("insn", <<Rot(p + 1)>>), Probe("cmp", pair), Probe("cmp", <<Rot(p), Rot(p)>>) >>
+  IN \* (order: even sizes first, so that word data and instructions stay aligned on word-oriented targets)
+     << Probe("str", ProbeStr), Probe("multi", <<Rot(p + 1), Rot(p + 2)>>), Probe("insn", <<Rot(p + 1)>>),
+        Probe("chr", <<Rot(p)>>), Probe("expr", <<Rot(p + 2)>>), Probe("cmp", pair), Probe("cmp", <<Rot(p), Rot(p)>>) >>
 
 EncArg(x) == <<x.sp, x.v>>
 EncStmt(s) == <<s.k, EncArg(s.a), EncArg(s.b), EncArg(s.c), s.s, <<s.n.id, s.n.lc>>, <<s.q.id, s.q.lc>>>>
@@ -143,6 +148,7 @@ Record ==
   [cs   |-> cs,
    h    |-> [i \in 1..L |-> EncStmt(hist[i])],
    err  |-> errs,
+   open |-> Len(vds[L + 1].stack),            \* SAVE frames still open at the end (a source must close them)
    pos  |-> [n \in 1..(L + 1) |->
                LET t == DTab(vds[n])
                    ps == ProbesAt(n - 1, t) IN
@@ -152,6 +158,9 @@ Record ==
                IF ~IsCap(hist[i]) THEN <<>>
                ELSE LET n == IF hist[i].k = "capE" THEN i ELSE L + 1 IN
                     <<DTab(vds[n])[hist[i].a.v], DTab(vds[n]) # DTab(vas[n])>>]]
+
+\* the contents of the table files, once per run (the harness writes the files from it)
+ASSUME PrintT(<<"CMF", ToJson([i \in 1..Len(MCFileTabs) |-> [z \in MCCodes |-> MCFileTabs[i][z]]])>>)
 
 Dump == (L = MaxLen) => PrintT(<<"CM", ToJson(Record)>>)
 =============================================================================
